@@ -8,9 +8,13 @@ import vcheck as V
 OPK = {1: "Process", 2: "Reopen", 3: "ExtRename", 4: "Pause"}
 
 # which mismatch kinds speak about which property (see Run_FileSink.kind)
+# C08 speaks about the acknowledged events being in the files, whole, once, in order, minus a prefix removed by retention:
+# that is exactly what the observation-only oracles KTorn/KSuffix/KLoss/KOrder evaluate after every step.  WHERE the rotation
+# boundaries fall and HOW MUCH retention removes (KFiles, KRead, KOk of a failed rotation, KBw, KLc …) is C15's business: a
+# sink that rotates one write late still satisfies C08, so those mismatches are ignored by C08's check.
 RELEVANT = {
-    "C08": {"KOk", "KRead", "KStd", "KTorn", "KSuffix", "KLoss", "KOrder"},
-    "C15": {"KOk", "KFiles", "KMode", "KBw", "KLc", "KDir", "KForeign", "KModeSpec", "KDirSpec", "KActive", "KNoRot"},
+    "C08": {"KStd", "KTorn", "KSuffix", "KLoss", "KOrder", "KCrash"},
+    "C15": {"KOk", "KRead", "KFiles", "KMode", "KBw", "KLc", "KDir", "KForeign", "KModeSpec", "KDirSpec", "KActive", "KNoRot", "KCrash"},
 }
 WHAT = {
     "KOk": "the acknowledgement (nil / error) of the call differs from the model",
@@ -29,10 +33,11 @@ WHAT = {
     "KDirSpec": "the directory created on demand is not 0700",
     "KActive": "the name of the active file contradicts TimestampOnlyOnRotate / the rotation settings",
     "KNoRot": "a rotated file appeared although neither MaxBytes nor MaxDuration is set",
+    "KCrash": "the directory left behind by SIGKILL is neither the state after the last acknowledged call nor one of the model's crash points of the next call",
 }
 
 ARGS = {
-    ("C08", "quick"): ["-modes", "seq,timed,special,conc", "-seq", "700", "-timed", "120", "-conc", "60"],
+    ("C08", "quick"): ["-modes", "seq,timed,special,conc", "-seq", "700", "-timed", "120", "-conc", "200"],
     ("C08", "thorough"): ["-modes", "seq,timed,special,conc,kill", "-seq", "5000", "-timed", "800", "-conc", "600", "-kill", "150", "-len", "30"],
     ("C15", "quick"): ["-modes", "seq,timed,special", "-seq", "800", "-timed", "200"],
     ("C15", "thorough"): ["-modes", "seq,timed,special,conc", "-seq", "6000", "-timed", "1500", "-conc", "200", "-len", "30"],
@@ -100,6 +105,54 @@ def eval_shards(ctx, files):
                 for i, n in enumerate(nums[:len(cov)]):
                     cov[i] += n
     return mism, cov, failures
+
+
+def _fails(ctx, binp, case, kind, tag):
+    """does the case (explicit op list) still show a mismatch of this kind on the tree under test?"""
+    d = os.path.join(ctx.work, "filesink", "shrink")
+    os.makedirs(d, exist_ok=True)
+    corpus = os.path.join(d, "cand.jsonl")
+    open(corpus, "w").write(json.dumps(case) + "\n")
+    rc, out = V.run([binp, "-out", d, "-prefix", "s" + tag, "-modes", "", "-corpus", corpus], timeout=120)
+    if rc != 0:
+        return False
+    summ = json.load(open(os.path.join(d, "s%s_summary.json" % tag)))
+    mism, _, failures = eval_shards(ctx, list(summ["files"]) + list(summ.get("kill_files") or []))
+    V.prune_shards(list(summ["files"]) + list(summ.get("kill_files") or []))
+    return any(k == kind for _, _, _, k in mism)
+
+
+def shrink(ctx, binp, case, kind, budget_s=40):
+    """greedy delta debugging on the operation list: drop operations (last to first) while the same kind of mismatch remains"""
+    import time
+    if not case.get("ops") or len(case["ops"]) < 2:
+        return case, 0
+    t0 = time.time()
+    best = dict(case)
+    tries = 0
+    i = len(best["ops"]) - 2          # the last operation is the one the mismatch was seen at
+    while i >= 0 and time.time() - t0 < budget_s:
+        cand = dict(best, ops=best["ops"][:i] + best["ops"][i + 1:])
+        tries += 1
+        if _fails(ctx, binp, cand, kind, "k"):
+            best = cand
+        i -= 1
+    # simplify the configuration where that keeps the failure
+    for key, val in (("foreign", None), ("pre_dir", False), ("mode", 0), ("file_name", "audit.log")):
+        if time.time() - t0 >= budget_s:
+            break
+        if best["cfg"].get(key) in (val, None):
+            continue
+        cfg = dict(best["cfg"])
+        if val is None:
+            cfg.pop(key, None)
+        else:
+            cfg[key] = val
+        cand = dict(best, cfg=cfg)
+        tries += 1
+        if _fails(ctx, binp, cand, kind, "k"):
+            best = cand
+    return best, tries
 
 
 def check(ctx):
@@ -178,11 +231,16 @@ def run(ctx, prop=None, extra_args=None):
             c["ops"] = c["ops"][:n]
             c.pop("len", None)
         kind = ms[0][2]
+        shrunk_from = len(c.get("ops") or [])
+        tries = 0
+        if c.get("ops") and len(sigs) <= 4:
+            c, tries = shrink(ctx, binp, c, kind)
         rp = V.write_replay(ctx, "filesink-%s" % sig, {
             "kind": "correspondence", "engine": "filesinkh", "theorem_or_correspondence": "Run_FileSink.mismatches (model FileSink.v vs real FileSink; observation-only oracles of %s)" % prop,
             "signature": sig, "first_mismatch": {"step": ms[0][0], "op": OPK.get(ms[0][1]), "kind": kind, "meaning": WHAT.get(kind, "")},
             "all_mismatches_of_case": [{"step": s, "op": OPK.get(o), "kind": k} for s, o, k in ms],
-            "case": c, "cases_failing_with_any_relevant_kind": len(by_case),
+            "case": c, "shrunk": {"from_ops": shrunk_from, "to_ops": len(c.get("ops") or []), "reruns": tries},
+            "cases_failing_with_any_relevant_kind": len(by_case),
             "repro": "bin/check replay <this file>"})
         ctx.violations.append({"match": "filesink:" + sig, "replay": rp,
                                "what": "%s: %s — %s at step %d of case %d (%d cases affected in total)" % (prop, sig, WHAT.get(kind, kind), ms[0][0], cid, len(by_case))})
